@@ -1900,11 +1900,14 @@ class IMAPClientCommand:
         assert date_exp
         match = _date_re.match(date_exp)
         assert match
-        return date(
-            year=int(match.group("year")),
-            month=_month[match.group("month").lower()],
-            day=int(match.group("day")),
-        )
+        try:
+            return date(
+                year=int(match.group("year")),
+                month=_month[match.group("month").lower()],
+                day=int(match.group("day")),
+            )
+        except ValueError as err:
+            raise BadSyntax(f"'{date_exp}' is not a valid date: {err}") from err
 
     #######################################################################
     #
@@ -1926,7 +1929,12 @@ class IMAPClientCommand:
 
         # We need to strip off the "" surrounding the date-time string.
         #
-        return parsedate(date_time[1:-1])
+        try:
+            return parsedate(date_time[1:-1])
+        except (ValueError, TypeError) as err:
+            raise BadSyntax(
+                f"{date_time} is not a valid date-time: {err}"
+            ) from err
 
     #######################################################################
     #
